@@ -38,6 +38,7 @@
 -/
 import GoBeans.Lemmas.Crash
 import GoBeans.Lemmas.CrashHint
+import GoBeans.Lemmas.CrashLives
 open Store Spec StoreLemmas
 
 theorem C06_reachable_good (hash : Key → Nat) (K : Key → Prop) (cfg : Store.Cfg) (R : Nat) (ops : List Op)
@@ -66,7 +67,7 @@ theorem C06_last_durable (k : Key) (log : List (Pos × Rec)) (cut : Nat → Nat)
 
 theorem C06_durable_is_written (k : Key) (log : List (Pos × Rec)) (cut : Nat → Nat) (x : Pos × Rec)
     (h : lastOf k (log.filter (durableP cut)) = some x) : x ∈ log ∧ x.2.key = k ∧ durableP cut x = true := by
-  obtain ⟨hm, hk⟩ := lastOf_mem k _ _ h
+  obtain ⟨hm, hk⟩ := StoreLemmas.lastOf_mem_at k _ _ h
   have := List.mem_filter.mp hm
   exact ⟨this.1, hk, this.2⟩
 
@@ -117,3 +118,30 @@ theorem C06_historical_code_fails :
   old_code_fails
 
 end ThroughIndexFiles
+
+/-! several process lives -/
+
+/-- what a kill leaves of a store reached by client commands, flushes, restarts and GC requests, and what the next start
+    makes of it, satisfies the invariants the crash theorem needs again (`Good`): C06 composes over any number of lives -/
+theorem C06_recovered_store_is_good (hash : Key → Nat) (K : Key → Prop) {cfg : Store.Cfg} {b : Bucket} (w : WF cfg b)
+    (hk : ∀ x ∈ b.log, K x.2.key) (cut : Nat → Nat) (present : Nat → Bool) :
+    Good K (b.recover hash cfg cut present) ∧ (b.recover hash cfg cut present).log = b.log.filter (durableP cut) :=
+  ⟨good_recover hash K w hk cut present, recover_log hash w cut present⟩
+
+/-- two lives: after a first life (client commands, flushes, restarts, GC requests), a kill, the start, a second life
+    (client commands, flushes, restarts) on what that start made, a second kill and start, a get returns the live part of
+    the key's last record that is durable in the SECOND crash state (engine crash exercises this: mix c06, second life) -/
+theorem C06_two_lives (hash : Key → Nat) (K : Key → Prop) (hInj : InjOn hash K) (cfg : Store.Cfg)
+    (hcv : cfg.checkVHash = false) (R : Nat) (ops1 : List HOp) (hlen : R + ops1.length < 2147483647)
+    (hops1 : ∀ op ∈ ops1, HOpOK K cfg R op) (cut1 : Nat → Nat) (present1 : Nat → Bool)
+    (R2 : Nat) (ops2 : List Op) (hops2 : ∀ op ∈ ops2, OpOK2 K R2 op) (cut2 : Nat → Nat) (present2 : Nat → Bool)
+    (k : Key) (hk : K k) :
+    let b1 := (hrun hash cfg {} ops1).1
+    let r1 := b1.recover hash cfg cut1 present1
+    let b2 := (Store.run hash cfg r1 ops2).1
+    r1.log = b1.log.filter (durableP cut1) ∧
+    (Store.step hash cfg (b2.recover hash cfg cut2 present2) (.get k)).2.1 =
+      (match lastOf k (b2.log.filter (durableP cut2)) with
+       | some (_, r) => if r.ver > 0 then Reply.value r.flag r.body else Reply.miss
+       | none => Reply.miss) :=
+  second_life_recover_get hash K hInj cfg hcv R ops1 hlen hops1 cut1 present1 R2 ops2 hops2 cut2 present2 k hk
